@@ -72,12 +72,19 @@ pub struct LogWriter {
     pub calls: usize,
     pub partial: bool,
     pub fail_at: Option<(usize, ErrorKind)>,
+    /// the k-th call accepts nothing (`Ok(0)` for a non-empty buffer)
+    pub zero_at: Option<usize>,
+    /// a sink of fixed size, like `&mut [u8]` or a full disk: accepts bytes up
+    /// to this total, then `Ok(0)` for ever
+    pub capacity: Option<usize>,
+    /// how often a non-empty buffer was answered with `Ok(0)`
+    pub refused: usize,
     pub flushes: usize,
 }
 
 impl LogWriter {
     pub fn new(partial: bool) -> LogWriter {
-        LogWriter { out: vec![], calls: 0, partial, fail_at: None, flushes: 0 }
+        LogWriter { out: vec![], calls: 0, partial, fail_at: None, zero_at: None, capacity: None, refused: 0, flushes: 0 }
     }
 }
 
@@ -90,7 +97,19 @@ impl Write for LogWriter {
                 return Err(io::Error::new(kind, "injected write failure"));
             }
         }
-        let n = if self.partial && buf.len() > 1 { (buf.len() + 1) / 2 } else { buf.len() };
+        if self.zero_at == Some(k) {
+            if !buf.is_empty() {
+                self.refused += 1;
+            }
+            return Ok(0);
+        }
+        let mut n = if self.partial && buf.len() > 1 { (buf.len() + 1) / 2 } else { buf.len() };
+        if let Some(cap) = self.capacity {
+            n = n.min(cap - self.out.len().min(cap));
+            if n == 0 && !buf.is_empty() {
+                self.refused += 1;
+            }
+        }
         self.out.extend_from_slice(&buf[..n]);
         Ok(n)
     }
@@ -106,7 +125,19 @@ impl Write for LogWriter {
             }
         }
         let total: usize = bufs.iter().map(|b| b.len()).sum();
+        if self.zero_at == Some(k) {
+            if total > 0 {
+                self.refused += 1;
+            }
+            return Ok(0);
+        }
         let mut take = if self.partial && total > 1 { (total + 1) / 2 } else { total };
+        if let Some(cap) = self.capacity {
+            take = take.min(cap - self.out.len().min(cap));
+            if take == 0 && total > 0 {
+                self.refused += 1;
+            }
+        }
         let n = take;
         for b in bufs {
             let m = take.min(b.len());
@@ -914,6 +945,58 @@ pub fn c18_check(rep: &mut Report, c: &StreamCase, s: &S, rng: &mut Rng) {
             }
             Ok(Err(_)) => {
                 if !base_out.starts_with(&w.out) {
+                    vio(rep, "output_not_a_prefix", format!("{} bytes accepted before the error are not a prefix of the fault-free output", w.out.len()));
+                }
+            }
+        }
+    }
+    // ---- (c') the writer stops ACCEPTING bytes instead of returning an error:
+    // `Ok(0)` for a non-empty buffer, once at call k, or for good once a fixed
+    // capacity is used up (`&mut [u8]`, `Cursor<&mut [u8]>`, a full device).
+    // `Write::write_all` defines that as a failure (`ErrorKind::WriteZero`):
+    // the bytes were not written, so reporting success would hand the caller a
+    // silently truncated output.
+    let mut zero_runs: Vec<(Option<usize>, Option<usize>)> = (0..nwrites).map(|k| (Some(k), None)).collect();
+    if !base_out.is_empty() {
+        for cap in [0, 1, base_out.len() / 2, base_out.len() - 1] {
+            if cap < base_out.len() {
+                zero_runs.push((None, Some(cap)));
+            }
+        }
+    }
+    for (zk, cap) in zero_runs {
+        let mut rd = SchedReader::new(&c.data, &c.schedule);
+        let mut w = LogWriter::new(c.partial_writes);
+        w.zero_at = zk;
+        w.capacity = cap;
+        let with_closure = (h ^ zk.unwrap_or(7) as u64) % 3 == 0;
+        let r = with_spare(c.spare, || guard(|| if with_closure {
+            stream_replace_with(s, &mut rd, &mut w, &c.repl, &mut vec![])
+        } else {
+            stream_replace(s, &mut rd, &mut w, &c.repl)
+        }));
+        rep.eval();
+        if w.refused == 0 {
+            // (the closure variant writes more often with less; the refusal
+            // was then never reached)
+            rep.tally("write_refusals_not_reached");
+            continue;
+        }
+        rep.tally(if zk.is_some() { "writes_accepting_nothing_injected" } else { "fixed_capacity_sinks" });
+        let vio = |rep: &mut Report, f: &str, d: String| {
+            rep.violation(
+                &format!("replace:write_zero:{}", f),
+                d,
+                c.to_json().with("fault", J::obj().with("op", J::s("write returns Ok(0)")).with("k", zk.map_or(J::Null, J::i)).with("capacity", cap.map_or(J::Null, J::i))),
+            )
+        };
+        match r {
+            Err(p) => vio(rep, "panic", format!("panic when the writer accepted nothing: {}", p)),
+            Ok(Ok(())) => vio(rep, "error_swallowed", format!(
+                "the writer accepted nothing (Ok(0) for a non-empty buffer; call {:?}, capacity {:?}) but stream replacement returned Ok with {} of {} bytes written",
+                zk, cap, w.out.len(), base_out.len())),
+            Ok(Err(_)) => {
+                if !with_closure && !base_out.starts_with(&w.out) {
                     vio(rep, "output_not_a_prefix", format!("{} bytes accepted before the error are not a prefix of the fault-free output", w.out.len()));
                 }
             }
